@@ -425,8 +425,15 @@ static tep *
 add_listener(tsock *ts, int tran)
 {
 	char url[128];
-	vf_url(tran, url, sizeof(url));
-	return add_listener_url(ts, tran, url);
+	tep *e;
+	// (a machine short of ephemeral ports refuses tcp port 0 for a while)
+	for (int tries = 0; tries < 100; tries++) {
+		vf_url(tran, url, sizeof(url));
+		if ((e = add_listener_url(ts, tran, url)) != NULL) return e;
+		vf_stat("listen_retries", 1);
+		vf_msleep(100);
+	}
+	return NULL;
 }
 
 static tep *
@@ -918,6 +925,15 @@ perturb(vf_rng *r, uint64_t key)
 	return name;
 }
 
+// tcp connections that the connecting side closes first stay in TIME_WAIT
+// for a minute and use up the machine's ephemeral ports: prefer ipc/inproc
+static int
+pick_tran(vf_rng *r)
+{
+	uint32_t w = vf_below(r, 12);
+	return w < 2 ? VF_T_TCP : w < 7 ? VF_T_IPC : VF_T_INPROC;
+}
+
 static void
 events_case(long idx)
 {
@@ -950,18 +966,18 @@ events_case(long idx)
 	tep *pl[3]  = { 0 };
 	tep *hl[3]  = { 0 };
 	for (int j = 0; j < np; j++) {
-		pl[j] = add_listener(cs[1 + j], (int) vf_below(&r, 3));
+		pl[j] = add_listener(cs[1 + j], pick_tran(&r));
 		if (pl[j] == NULL) vf_harness_fail("peer listener");
 	}
 	for (int i = 0; i < nl; i++) {
-		hl[i] = add_listener(cs[0], (int) vf_below(&r, 3));
+		hl[i] = add_listener(cs[0], pick_tran(&r));
 		if (hl[i] == NULL) vf_harness_fail("hub listener");
 	}
 	// dialers (all background, all with explicit reconnect times)
 	for (int i = 0; i < nd; i++) {
 		tep *t  = pl[i % np];
 		int  rc = (int) vf_below(&r, 4);
-		if (pairfam && rc == 0) rc = 1 + (int) vf_below(&r, 3);
+		if ((pairfam || t->tran == VF_T_TCP) && rc == 0) rc = 1 + (int) vf_below(&r, 3);
 		if (add_dialer(cs[0], t->tran, t->url, reconn[rc][0], reconn[rc][1], false) == NULL) vf_harness_fail("hub dialer");
 	}
 	for (int j = 0; j < np; j++) {
@@ -970,7 +986,7 @@ events_case(long idx)
 		for (int k = 0; k < pd; k++) {
 			tep *t  = hl[vf_below(&r, (uint32_t) nl)];
 			int  rc = (int) vf_below(&r, 4);
-			if (pairfam && rc == 0) rc = 1 + (int) vf_below(&r, 3);
+			if ((pairfam || t->tran == VF_T_TCP) && rc == 0) rc = 1 + (int) vf_below(&r, 3);
 			if (add_dialer(cs[1 + j], t->tran, t->url, reconn[rc][0], reconn[rc][1], false) == NULL) vf_harness_fail("peer dialer");
 		}
 	}
@@ -1079,7 +1095,11 @@ raw_open(rawl *r, int tran, bool listening)
 	if (tran == VF_T_IPC) {
 		snprintf(r->path, sizeof(r->path), "/tmp/vf-c14-%d-%d.sock", (int) getpid(), atomic_fetch_add(&ctr, 1));
 	}
-	if ((r->fd = raw_bind_fd(r)) < 0) vf_harness_fail("raw bind: %s", strerror(errno));
+	for (int tries = 0; (r->fd = raw_bind_fd(r)) < 0; tries++) {
+		if (tries >= 100) vf_harness_fail("raw bind: %s", strerror(errno));
+		vf_stat("listen_retries", 1);
+		vf_msleep(100);
+	}
 	if (listening) {
 		if (listen(r->fd, 64) != 0) vf_harness_fail("listen: %s", strerror(errno));
 		r->listening = true;
@@ -1154,10 +1174,13 @@ raw_accept(rawl *r, int timeout_ms)
 static void
 fd_rst_close(int fd, bool rst)
 {
-	if (rst) {
-		struct linger lg = { 1, 0 };
-		setsockopt(fd, SOL_SOCKET, SO_LINGER, &lg, sizeof(lg));
+	struct linger lg = { 1, 0 };
+	if (!rst) {
+		// orderly close as the peer sees it (FIN first), but no TIME_WAIT
+		// entry on this side: those would use up the ephemeral ports
+		shutdown(fd, SHUT_WR);
 	}
+	setsockopt(fd, SOL_SOCKET, SO_LINGER, &lg, sizeof(lg));
 	close(fd);
 }
 
@@ -1617,7 +1640,7 @@ redial_case(long idx)
 	key = vf_rand(&r);
 	case_reset();
 	uint32_t w = vf_below(&r, 10);
-	if (w < 5) {
+	if (w < 3) {
 		redial_raw_case(idx, &r, key, VF_T_TCP);
 	} else if (w < 8) {
 		redial_raw_case(idx, &r, key, VF_T_IPC);
@@ -1876,7 +1899,7 @@ probe_once(tsock *ts, tep *le, bool use_nng, uint64_t seqno, uint64_t key)
 		}
 		if (ok) vf_stat("probe_round_trips", 1);
 	}
-	close(fd);
+	fd_rst_close(fd, false);
 	return ok;
 }
 
@@ -1902,7 +1925,7 @@ listen_case(long idx)
 	tsock *ts = sock_open(pname, key, 0, 0, 0);
 	tep   *les[3];
 	for (int i = 0; i < nl; i++) {
-		if ((les[i] = add_listener(ts, vf_chance(&r, 1, 2) ? VF_T_TCP : VF_T_IPC)) == NULL) vf_harness_fail("listener");
+		if ((les[i] = add_listener(ts, vf_chance(&r, 1, 4) ? VF_T_TCP : VF_T_IPC)) == NULL) vf_harness_fail("listener");
 	}
 	uint64_t seqno = 1;
 	for (int round = 0; round < rounds; round++) {
